@@ -28,6 +28,8 @@ import Props.C10_xmlattrs
 #print axioms SpyneModel.Props.C10.soap_multiref_called_or_client_fault
 #print axioms SpyneModel.Props.C10.facts10_urls
 #print axioms SpyneModel.Props.C10.funnel_total_wsgi_url
+#print axioms SpyneModel.Props.C10.facts10_fault_documents
+#print axioms SpyneModel.Props.C10.fault_document_always_written
 #print axioms SpyneModel.Props.C10.shared_leaf_never_crashes
 #print axioms SpyneModel.Props.C10.decimal_leaf_never_crashes
 #print axioms SpyneModel.Props.C10.uuid_leaf_never_crashes
